@@ -43,7 +43,7 @@ func init() {
 		NotDecided: []string{"memory safety inside the SIMD kernels beyond the slack arithmetic", "time bounds other than loop progress", "bounds of every tape index on the read API (C19.bounds covers the corrupt-tape side)"},
 		Assumptions: []string{"every index entry refers to a distinct input byte (stage 1 emits at most one index per byte)"},
 		Exhaustive: true,
-		Quick:      []string{"C05.term", "C05.drain", "C05.const", "C05.progress", "C01.err", "C02.cursor", "C04.buf"},
+		Quick:      []string{"C05.term", "C05.drain", "C05.const", "C05.progress", "C01.err", "C02.cursor", "C04.buf", "C19.bounds"},
 	})
 	regProp(&PropInfo{ID: "C07",
 		Decides:    "Structural reasons no interleaving can lose or overwrite an index buffer and both stages terminate on every error path: ring arithmetic (cap+2 <= slots, slot = counter % slots), exactly-once terminator, drain discipline of the consumer goroutine, join before return.",
@@ -57,7 +57,7 @@ func init() {
 		NotDecided: []string{"equality of outcomes (behavioural)", "Serializer/Deserialize reuse until C15.ser is built"},
 		Assumptions: []string{},
 		Exhaustive: true,
-		Quick:      []string{"C15.reset", "C05.drain", "C05.term"},
+		Quick:      []string{"C15.reset", "C05.drain", "C05.term", "C15.ser"},
 	})
 	regProp(&PropInfo{ID: "C08",
 		Decides:    "Where newline becomes a token and how roots are sequenced: ParseND passes ndjson=true and Parse false; the flag is (re)assigned on every path; in the extracted automaton a root must be followed by LF, blank lines are skipped, the old root is closed and a new one opened before the next '{'/'['; inside containers LF has no row.",
@@ -85,6 +85,13 @@ func init() {
 		NotDecided: []string{"S2/zstd fidelity", "hash-collision behaviour of the string table beyond the bytes.Equal check", "header field order and block framing until C11.header/C11.block are built", "noasm build matrix"},
 		Assumptions: []string{"klauspost/compress round-trips blocks"},
 		Exhaustive: true,
-		Quick:      []string{"C11.codec", "C11.counts", "C14.writers", "C02.map"},
+		Quick:      []string{"C11.codec", "C11.counts", "C11.block", "C15.ser", "C14.writers", "C02.map"},
+	})
+	regProp(&PropInfo{ID: "C19",
+		Decides:    "Every index/slice operation in Deserialize, decBlock and the traversal/marshal API is an obligation proved from the comparisons that precede it on the same path (linear reasoning over the same atoms, additions of two untrusted 64-bit values treated as wrapping); every relative cursor update is non-negative; input lengths are bounded by unsigned comparisons; every decoder goroutine is awaited on every return path; NOP-skipping loops make progress.",
+		NotDecided: []string{"allocation size (declared sizes small enough to allocate are a premise of the property)", "internals of s2/zstd decoders"},
+		Assumptions: []string{"INV: iterator cursor fields (off) and validated extents (addNext) are non-negative", "one stated invariant for NextElementBytes (dst.off+elemSize is the container end or off+{0,1})"},
+		Exhaustive: true,
+		Quick:      []string{"C19.bounds", "C19.join", "C11.block", "C05.progress"},
 	})
 }
